@@ -80,12 +80,27 @@ def extract_table(name):
     return {"initHasRng": init_has, "sampleHasRng": sample_has, "sampleOverwrites": overwrites, "consumesRng": consumes}
 
 
+ENTROPY: dict = {}
+
+
 def check_wiring(chk):
     drv = core.LeanDriver()
     names = ["importance", "minipcn", "emcee", "minipcn_smc", "emcee_smc", "blackjax_smc"]
     tables = {n: extract_table(n) for n in names}
     reps = drv.batch(["f64 wiring " + " ".join("1" if tables[n][k] else "0" for k in ("initHasRng", "sampleHasRng", "sampleOverwrites", "consumesRng")) for n in names])
     chk.extra["wiring_tables"] = tables
+    # non-interference model (Model/Entropy.lean, theorem C20.runs_reproducible): same / different predicted per class and route
+    ent_lines, ent_keys = [], []
+    for n in names:
+        for r in ROUTES:
+            ent_lines.append("f64 entropy " + " ".join("1" if tables[n][k] else "0" for k in ("initHasRng", "sampleHasRng", "sampleOverwrites", "consumesRng"))
+                             + f" {r} 1 7 100 200")
+            ent_keys.append((n, r))
+    ENTROPY.clear()
+    for key, rep in zip(ent_keys, drv.batch(ent_lines)):
+        if not rep.ok:
+            raise core.HarnessError(rep.err)
+        ENTROPY[key] = rep.tok()
     pred = {}
     for n, rep in zip(names, reps):
         if not rep.ok:
@@ -206,6 +221,15 @@ def check_pairs(chk, r, n_seeds, pred):
                 observed_user = (used_a is ga) if sampler == "smc" else (kern_a is ga) if sampler == "minipcn" else True
                 if sampler != "importance" and says_user != observed_user:
                     chk.disagree("wiring", case, pred[name][route], "user" if observed_user else "ambient")
+                # the non-interference model: `same` predicted <=> the two runs (different ambient entropy) are bit-identical
+                if tables_consume(name) and (name, route) in ENTROPY:
+                    chk.count("entropy_model:" + ENTROPY[(name, route)])
+                    if (ENTROPY[(name, route)] == "same") != (not diff):
+                        chk.disagree("entropy", case, ENTROPY[(name, route)], "same" if not diff else "diff")
+
+
+def tables_consume(name):
+    return name in ("minipcn", "minipcn_smc", "emcee_smc", "blackjax_smc", "emcee")
 
 
 def check_reuse(chk, r, n):
